@@ -67,7 +67,7 @@ def judge_checkkey(sh, line, kw, kv, ident, op):
 def build_exhaustive(sc, sh, pid, l, sig, part=None):
     """l=3: every keygen list, every documented one-step transition, both omit-all settings"""
     rng = sc.rng
-    vals = VALUES + wkd.ALGEBRAIC
+    vals = VALUES + wkd.ALGEBRAIC + wkd.SPARSE_WORDS
     vi = [0]
 
     def val():
